@@ -12,7 +12,7 @@ LEVEL = 'exploration'
 RULE = ('Hypothesis draws a valid call sequence on Client / LmtpClient (banner, ehlo|helo|lhlo, 1..3 transactions of mailfrom, '
         'rcptto x 0..4, data, send_data|send_empty_data, rset, custom commands, quit) and a reply script (any code class, 1..3 '
         'lines per reply, PIPELINING advertised or not, reply stream cut by a generated chunk pattern) served by a reactive '
-        'in-memory peer; the same mailbox may be named twice in a transaction, a reply may end in a bare code line; a second family runs '
+        'in-memory peer; the same mailbox may be named twice in a transaction, a reply may end in a bare code line; a directed family puts one reply with a three-digit non-SMTP code inside a pipelined batch (BadReply at the flush, the caller carries on with RSET and QUIT); a second family runs '
         'two such clients at the same time with their calls interleaved by a generated schedule. non-trivial = pipelined, with >=1 rejected and >=1 accepted command and a multi-line or cut reply; '
         'distinct = distinct (calls, script, chunks)')
 ASSUMPTIONS = ['the peer answers each complete command line immediately and in order (a conforming server)',
